@@ -466,11 +466,15 @@ func fieldByType[T any](v reflect.Value, out *T) bool {
 // PureProbe asks the repository whether (issuer, serial) is listed in any CRL it currently
 // treats as loaded. No CDP is passed, so there is no strict gate, no fetch and no state change.
 func (h *Harness) PureProbe(n *Node, issuerRaw []byte, serial *big.Int) (revoked bool, err error) {
+	return h.PureProbeCert(n, &x509.Certificate{RawIssuer: issuerRaw, SerialNumber: serial})
+}
+
+// PureProbeCert is PureProbe with a complete (parsed) certificate.
+func (h *Harness) PureProbeCert(n *Node, cert *x509.Certificate) (revoked bool, err error) {
 	repo := n.Repo()
 	if repo == nil {
 		return false, errors.New("no repository")
 	}
-	cert := &x509.Certificate{RawIssuer: issuerRaw, SerialNumber: serial}
 	h.Exclusive(n, "probe", func() {
 		st, e := repo.IsRevoked(cert, nil)
 		if e != nil {
